@@ -517,6 +517,22 @@ static void check_timeseries(void)
             if (!ok) {
                 goto out;
             }
+            /* ... its summary still weighs every sample by its own duration */
+            if (wtot > 0) {
+                struct cmb_wtdsummary ws;
+                memset(&ws, 0, sizeof ws);
+                cmb_timeseries_summarize(&ts, &ws);
+                long double num = 0;
+                for (int i = 0; i < n; i++) {
+                    num += (long double)ref[i].x * ref[i].w;
+                }
+                const double exact = (double)(num / wtot), gotm = cmb_wtdsummary_mean(&ws);
+                if (!(fabs(gotm - exact) <= 1e-12 * (1 + fabs(exact)))) {
+                    FAIL("summary-differs:after-sort-x", "time-weighted mean of the value-sorted series %.17g, of the same "
+                         "samples in time order %.17g", gotm, exact);
+                    goto out;
+                }
+            }
             /* ... and its histogram still accounts for the full weight of every sample */
             if (hi > lo) {
                 cmb_timeseries_histogram_print(&ts, devnull, 3, lo, hi);
